@@ -3488,7 +3488,8 @@ class x86_mn(x86_mn_base):
                             None:  x86_afs.u32,
                             }[c.modifs[sd]]
                     elif c.modifs[sd] is not None:
-                        size = {x86_afs.f80:x86_afs.f80, x86_afs.u16:x86_afs.u16, x86_afs.u32:x86_afs.f32, x86_afs.f32:x86_afs.f32, x86_afs.f64:x86_afs.f64}[size]
+                        # (a size that no x87 operand has matches no row)
+                        size = {x86_afs.f80:x86_afs.f80, x86_afs.u16:x86_afs.u16, x86_afs.u32:x86_afs.f32, x86_afs.f32:x86_afs.f32, x86_afs.f64:x86_afs.f64}.get(size)
                 else:
                     size = a[x86_afs.size]
                 if not x86mndb.check_size_modif(size, c.modifs):
